@@ -44,6 +44,7 @@ class Gen:
         self.epoch_views: set[int] = set()
         self.readonly: set[int] = set()
         self.scopes: list = []
+        self.unguarded: set[int] = set()  # operands/results of ops recorded while the memory guard was off
 
     # ------------------------------------------------------------------ helpers
     def new(self):
@@ -93,6 +94,9 @@ class Gen:
                 del self.np.H[s["h"]]
             return False
         self.prog.append(s)
+        if s["k"] == "op" and self.tracking() and not self.guard_on():
+            self.unguarded.add(s["h"])
+            self.unguarded.update(o["h"] for o in s["a"] if "h" in o)
         if s["k"] in ("op", "leaf"):
             h = s["h"]
             self.nh = h
@@ -466,6 +470,10 @@ class Gen:
         t = self.pick(lambda h: h not in self.readonly and self.arr(h).flags.writeable)
         if t is None:
             return False
+        if not self.tracking() and any(np.shares_memory(self.arr(t), self.arr(u)) for u in self.unguarded if u in self.np.H):
+            # writing, untracked, into memory that belongs to a graph recorded with the guard off: the user
+            # switched both protections off - outside every property
+            return False
         T = self.arr(t)
         sh = list(T.shape)
         kind = r.choice(self.p.get("inplace", ["setitem", "setitem", "aug", "uout"]))
@@ -551,6 +559,18 @@ class Gen:
             s["seed"] = seed
         self.prog.append(s)
 
+    def tracking(self):
+        return not any(m == "no_autodiff" for m, _ in self.scopes)
+
+    def guard_on(self):
+        g = True
+        for m, _ in self.scopes:
+            if m == "mem_guard_off":
+                g = False
+            elif m == "mem_guard_on":
+                g = True
+        return g
+
     # ------------------------------------------------------------------ scopes (C15)
     def enter_scope(self, m):
         self.prog.append({"k": "enter", "m": m})
@@ -576,6 +596,7 @@ class Gen:
                 self.prog.append({"k": "drop", "h": h})
                 del self.np.H[h]
         self.epoch_views.clear()
+        self.unguarded.clear()
 
 
 def gen_program(seed: int, profile: dict) -> list[dict]:
